@@ -293,7 +293,7 @@ func pickGossamerArtifact(k *kernel.K) *scaleArtifact {
 		return &scaleArtifact{name: "types.GrandpaVoters(Encode/DecodeGrandpaVoters)", enc: a, other: b,
 			decF: func(in []byte) (any, error) { return types.DecodeGrandpaVoters(in) },
 			encF: func(v any) ([]byte, error) { return types.EncodeGrandpaVoters(v.(types.GrandpaVoters)) },
-			typ: reflect.TypeOf([]types.GrandpaAuthoritiesRaw{})} // same wire shape: [](32 bytes, u64)
+			typ:  reflect.TypeOf([]types.GrandpaAuthoritiesRaw{})} // same wire shape: [](32 bytes, u64)
 	case 10: // BABE pre-runtime digest through the real DecodeBabePreDigest
 		a, b := two(func(l string) []byte { return babePreDigest(k, l).Data })
 		return &scaleArtifact{name: "types.BabeDigest(DecodeBabePreDigest)", enc: a, other: b,
